@@ -191,6 +191,17 @@ def scribble(m):
         pass
 
 
+def observe(m):
+    """Asking a message about itself - every read-only attribute and method of the public interface - is not an edit: the message must
+    compare, copy and encode afterwards as it did before."""
+    for f in (lambda: m.is_realtime, lambda: m.is_meta, lambda: m.is_cc(), lambda: m.is_cc(7), lambda: len(m), lambda: str(m), lambda: repr(m),
+              lambda: m.hex(), lambda: m.dict(), lambda: m.bytes(), lambda: m.bin(), lambda: m == m, lambda: m.copy()):
+        try:
+            f()
+        except Exception:  # noqa: BLE001
+            pass
+
+
 _NOISE = [0]
 
 
